@@ -535,6 +535,10 @@ class _Chain(References):
         _check_take(len(self), indices)
         n = len(self.sequence1)
         mask = numpy.less(indices, n)
+        if (mask[1:] > mask[:-1]).any():
+            # An index into the first sequence follows one into the second:
+            # taking per sequence would reorder the items.
+            return super().take(indices)
         return self.sequence1.take(numpy.compress(mask, indices)).chain(self.sequence2.take(numpy.compress(~mask, indices) - n))
 
     def compress(self, mask: numpy.ndarray) -> References:
